@@ -11,6 +11,14 @@ def restrict(facts, names):
     return frozenset(f for f in facts if any(guards._mentions(f[0], n) for n in names))
 
 
+def store_root(l):
+    """The variable a byte store goes through: `buf[n++]`, `*pos++`, `*pos` -> buf / pos."""
+    l = strip_casts(l)
+    while l is not None and l["k"] in ("idx", "un", "cast"):
+        l = strip_casts(l["base"] if l["k"] == "idx" else l["e"])
+    return l["name"] if l is not None and l["k"] == "ref" else None
+
+
 def arr_size(fn, name):
     for b, i, s in fn.stmts():
         for n in walk(s):
@@ -161,7 +169,8 @@ def run(prog, rep):
         for A0 in set(n["name"] for (b, i, n) in fn_.nodes(elsewhere=True) if n["k"] == "decl" and arr_size(fn_, n["name"])):
             held = fn_.copies_of(A0)
             for (b, i, n) in fn_.nodes(elsewhere=True):
-                if n["k"] == "asg" and strip_casts(n["l"])["k"] == "idx" and root_var(n["l"]) in held and cv(n["r"]) is None:
+                if n["k"] == "asg" and (strip_casts(n["l"])["k"] == "idx" or (strip_casts(n["l"])["k"] == "un" and strip_casts(n["l"]).get("op") == "*")) \
+                        and store_root(n["l"]) in held and cv(n["r"]) is None:
                     t_ = u.type_of(strip_casts(n["l"]))
                     if t_ and t_.get("k") == "int" and t_.get("w") == 8:
                         arrs.add(A0)
@@ -181,7 +190,7 @@ def run(prog, rep):
                                     clean = True
                                 elif not clean:
                                     unterminated.append((line(n), n.get("callee")))
-                    if n["k"] == "asg" and strip_casts(n["l"])["k"] == "idx" and root_var(n["l"]) in held:
+                    if n["k"] == "asg" and (strip_casts(n["l"])["k"] == "idx" or (strip_casts(n["l"])["k"] == "un" and strip_casts(n["l"]).get("op") == "*")) and store_root(n["l"]) in held:
                         clean = cv(n["r"]) == 0
                 return [(guards.transfer(facts, stmt), clean)]
 
@@ -421,6 +430,7 @@ def run(prog, rep):
     gl = u.fn("p_ini_file_parameter_list").inlined()
     tokbuf = None
     cnts = set()
+    larrs = set(n["name"] for (b, i, n) in gl.nodes(elsewhere=True) if n["k"] == "decl" and arr_size(gl, n["name"]))
     for b, i, n in gl.nodes():
         if n["k"] == "asg":
             l = strip_casts(n["l"])
@@ -431,6 +441,16 @@ def run(prog, rep):
                 if iv is not None and iv["k"] == "ref":
                     tokbuf = strip_casts(l["base"])["name"]
                     cnts.add(iv["name"])
+            elif l is not None and l["k"] == "un" and l.get("op") == "*" and cv(n["r"]) is None:
+                # write-pointer form: `*pos++ = c` with pos a cursor into a local array; "non-empty" is `pos > buf` / `pos != buf`
+                pv = strip_casts(l["e"])
+                if pv is not None and pv["k"] == "un" and "++" in pv["op"]:
+                    pv = strip_casts(pv["e"])
+                if pv is not None and pv["k"] == "ref":
+                    for A0 in larrs:
+                        if pv["name"] in gl.copies_of(A0) and pv["name"] != A0:
+                            tokbuf = A0
+                            cnts.add(pv["name"])
     emits = []
     for b, i, c in gl.calls():
         if c.get("callee") in ("p_list_append", "p_list_prepend") and any(x.get("callee") == "p_strdup" and root_var(x["args"][0]) == tokbuf for x in calls(c)):
@@ -444,6 +464,9 @@ def run(prog, rep):
             lv, rv_ = strip_casts(x["l"]), cv(x["r"])
             if lv is None or lv["k"] != "ref" or lv["name"] not in cnts:
                 return False
+            rr = strip_casts(x["r"])
+            if rv_ is None and rr is not None and rr["k"] == "ref" and rr["name"] == tokbuf:
+                return x["op"] in (">", "!=")             # cursor beyond the start of the buffer
             return (x["op"] in (">", "!=") and rv_ == 0) or (x["op"] == ">=" and rv_ == 1)
         g = true_edge_guards(gl, b.id, nonempty)
         rep.ob("C16.5", gl, "list:token#%d" % (k + 1), bool(g), "a list element is emitted only when the token holds at least one character (%s)" % show(g[0]) if g else
